@@ -28,6 +28,7 @@ import (
 	"github.com/dgraph-io/badger/v4/pb"
 	"github.com/dgraph-io/badger/v4/skl"
 	"github.com/dgraph-io/badger/v4/table"
+	"github.com/dgraph-io/badger/v4/verifhook"
 	"github.com/dgraph-io/badger/v4/y"
 	"github.com/dgraph-io/ristretto/v2"
 	"github.com/dgraph-io/ristretto/v2/z"
@@ -857,6 +858,7 @@ func (db *DB) writeRequests(reqs []*request) error {
 		done(err)
 		return err
 	}
+	verifhook.Point("write.afterVlog")
 
 	db.opt.Debugf("Writing to memtable")
 	var count int
@@ -890,6 +892,7 @@ func (db *DB) writeRequests(reqs []*request) error {
 	db.opt.Debugf("Sending updates to subscribers")
 	db.pub.sendUpdates(reqs)
 
+	verifhook.Point("write.beforeAck")
 	done(nil)
 	db.opt.Debugf("%d entries written", count)
 	return nil
@@ -1042,6 +1045,7 @@ func (db *DB) ensureRoomForWrite() error {
 		if err != nil {
 			return y.Wrapf(err, "cannot create new mem table")
 		}
+		verifhook.Ev("memtable.rotate", uint64(len(db.imm)), 0)
 		// New memtable is empty. We certainly have room.
 		return nil
 	default:
@@ -1092,6 +1096,7 @@ func (db *DB) handleMemTableFlush(mt *memTable, dropPrefixes [][]byte) error {
 	fileID := db.lc.reserveFileID()
 	var tbl *table.Table
 	var err error
+	verifhook.Point("flush.beforeCreate")
 	if db.opt.InMemory {
 		data := builder.Finish()
 		tbl, err = table.OpenInMemoryTable(data, fileID, &bopts)
@@ -1101,9 +1106,11 @@ func (db *DB) handleMemTableFlush(mt *memTable, dropPrefixes [][]byte) error {
 	if err != nil {
 		return y.Wrap(err, "error while creating table")
 	}
+	verifhook.Point("flush.beforeAdd")
 	// We own a ref on tbl.
 	err = db.lc.addLevel0Table(tbl) // This will incrRef
 	_ = tbl.DecrRef()               // Releases our ref.
+	verifhook.Point("flush.afterAdd")
 	return err
 }
 
@@ -1125,6 +1132,7 @@ func (db *DB) flushMemtable(lc *z.Closer) {
 				continue
 			}
 
+			verifhook.Point("flush.beforePop")
 			// Update s.imm. Need a lock.
 			db.lock.Lock()
 			// This is a single-threaded operation. mt corresponds to the head of
@@ -1723,6 +1731,7 @@ func (db *DB) dropAll() (func(), error) {
 	if err != nil {
 		return f, err
 	}
+	verifhook.Point("dropall.afterPrepare")
 	// prepareToDrop will stop all the incoming write and flushes any pending memtables.
 	// Before we drop, we'll stop the compaction because anyways all the data are going to
 	// be deleted.
@@ -1751,6 +1760,7 @@ func (db *DB) dropAll() (func(), error) {
 		return resume, err
 	}
 	db.opt.Infof("Deleted %d SSTables. Now deleting value logs...\n", num)
+	verifhook.Point("dropall.afterTree")
 
 	num, err = db.vlog.dropAll()
 	if err != nil {
@@ -1786,6 +1796,7 @@ func (db *DB) DropPrefix(prefixes ...[]byte) error {
 	}
 	defer f()
 
+	verifhook.Point("dropprefix.afterPrepare")
 	var filtered [][]byte
 	if filtered, err = db.filterPrefixesToDrop(prefixes); err != nil {
 		return err
@@ -1820,6 +1831,7 @@ func (db *DB) DropPrefix(prefixes ...[]byte) error {
 		return y.Wrapf(err, "cannot create new mem table")
 	}
 
+	verifhook.Point("dropprefix.beforeLevels")
 	// Drop prefixes from the levels.
 	if err := db.lc.dropPrefixes(filtered); err != nil {
 		return err
